@@ -8,6 +8,7 @@ import NutsModel.C18.Policy
 import NutsModel.C18.Cache
 import NutsProofs.Lemmas.C18
 import NutsProofs.Lemmas.C18Deep
+import NutsModel.C18.RCacheOld
 
 namespace Nuts.C18.Props
 open Nuts Nuts.C18
@@ -395,9 +396,10 @@ theorem fact_cache_flow :
     Facts.C18.cacheFlow_get = ["call h.mux.Lock()", "call h.removeExpiredEntries()", "entries := h.entriesByURL[httpRequest.URL.String()]", "range entries",
       "if entry.requestMethod == httpRequest.Method && entry.requestRawQuery == httpRequest.URL.RawQuery", "return &<*ast.CompositeLit>", "return nil"] ∧
     Facts.C18.cacheFlow_insert = ["if len(entry.responseData) > h.maxBytes", "return ", "call h.mux.Lock()",
-      "for h.currentSizeBytes + len(entry.responseData) >= h.maxBytes", "_ = h.pop()", "if h.head == nil", "h.head = entry",
+      "for h.head != nil && h.currentSizeBytes + len(entry.responseData) > h.maxBytes", "_ = h.pop()",
+      "if h.head == nil || entry.expirationTime.Before(h.head.expirationTime)", "entry.next = h.head", "h.head = entry",
       "for current.next != nil && current.next.expirationTime.Before(entry.expirationTime)", "current = current.next",
-      "if current == h.head", "h.head = entry", "entry.next = current.next", "current.next = entry",
+      "entry.next = current.next", "current.next = entry",
       "h.entriesByURL[entry.requestURL.String()] = append(h.entriesByURL[entry.requestURL.String()], entry)",
       "h.currentSizeBytes += len(entry.responseData)"] ∧
     Facts.C18.cacheFlow_removeExpiredEntries = ["for current != nil", "if current.expirationTime.Before(time.Now())", "current = h.pop()", "break"] ∧
@@ -416,15 +418,17 @@ theorem fact_cache_flow :
       "httpResponse.Body = io.NopCloser(bytes.NewReader(responseBytes))", "return nil"] ∧
     maxCacheMinutes Facts.C18.maxCacheTimeExpr = some 60 := by decide
 
-/-- **Invariant of every reachable cache state** (any capacity, any sequence of lookups, inserts, pops and round trips
-    that return): every entry of the expiry list is in the URL index; the expiry list holds AT MOST ONE entry (the code
-    as written replaces the head on every insert); pointer identities are distinct; `currentSizeBytes` is exactly the
-    number of body bytes the index holds; and a non-empty cache stays strictly below its byte limit. -/
-theorem rcache_invariant (maxBytes : Int) (ops : List COp) (c : RCache) (h : (RCache.new maxBytes).run ops = some c) :
-    (∀ e ∈ c.list, e ∈ c.all) ∧ c.list.length ≤ 1 ∧ (c.all.map (·.id)).Nodup ∧ c.size = sumSizes c.all ∧
-    (c.all = [] ∨ c.size < c.maxBytes) ∧ c.maxBytes = maxBytes := by
-  obtain ⟨i, m, _⟩ := run_inv ops _ c (new_inv maxBytes) h
-  exact ⟨i.listed, i.short, i.nodup, i.acct, i.cap, m⟩
+/-- **Invariant of every reachable cache state** (any capacity, any sequence of lookups, inserts, pops and round
+    trips — every call returns, the model's loops are structural recursions): the expiry list and the URL index hold
+    exactly the same entries (no entry can be answered that expiry and eviction cannot reach); the list is ordered by
+    expiry; pointer identities are distinct; `currentSizeBytes` is exactly the number of body bytes held (by the index
+    and by the list); and a non-empty cache never exceeds its byte limit. -/
+theorem rcache_invariant (maxBytes : Int) (ops : List COp) :
+    let c := (RCache.new maxBytes).run ops
+    (∀ e, e ∈ c.list ↔ e ∈ c.all) ∧ c.list.Pairwise (fun a b => a.exp ≤ b.exp) ∧ (c.all.map (·.id)).Nodup ∧
+    c.size = sumSizes c.all ∧ c.size = sumSizes c.list ∧ (c.list = [] ∨ c.size ≤ c.maxBytes) ∧ c.maxBytes = maxBytes := by
+  obtain ⟨i, m⟩ := run_inv ops _ (new_inv maxBytes)
+  exact ⟨i.t.same, i.t.sorted, i.t.nodupAll, i.t.acct, i.t.acctL, i.cap, m⟩
 
 /-- **A cache hit is the entry of exactly this request**: same URL string, same method, same raw query — in every state. -/
 theorem rcache_hit_sound (c : RCache) (now : Int) (k m q : Bytes) (e : CEntry) (h : (c.get now k m q).2 = some e) :
@@ -437,32 +441,32 @@ theorem rcache_hit_same_url (c : RCache) (now : Int) (u v : CUrl) (hu : u.wf = t
     (hstored : e.key = cacheKey v) (h : (c.get now (cacheKey u) m q).2 = some e) : u = v :=
   cache_key_injective u v hu hv ((get_hit c now _ m q e h).1.symm.trans hstored)
 
-/-- **Negative result, established on the real code by the harness**: an entry that is displaced from the expiry list
-    by a later insert (and was not evicted to make room) is answered from the cache FOR EVER — at every later time
-    `now`, after any further operations: expiry (`max-age`, `maxCacheTime`) no longer applies to it. -/
-theorem rcache_displaced_entry_outlives_expiry (maxBytes : Int) (ops ops' : List COp) (c c2 c3 : RCache) (hd : CEntry)
-    (k m q : Bytes) (size : Nat) (exp : Int)
-    (hreach : (RCache.new maxBytes).run ops = some c) (hlisted : hd ∈ c.list) (hfits : (size : Int) ≤ c.maxBytes)
-    (hins : c.insert k m q size exp = .ok c2) (hstill : hd ∈ c2.all) (hlater : c2.run ops' = some c3) (now : Int) :
-    hd ∉ c3.list ∧ ∃ e', (c3.get now hd.key hd.method hd.query).2 = some e' := by
-  obtain ⟨i, _, _⟩ := run_inv ops _ c (new_inv maxBytes) hreach
-  obtain ⟨i2, _, _, disp⟩ := insert_inv c c2 i k m q size exp hins
-  have hnl : hd ∉ c2.list := disp hd hlisted (i.listed hd hlisted) hfits hstill
-  obtain ⟨i3, _, k3⟩ := run_inv ops' c2 c3 i2 hlater
-  obtain ⟨a, b⟩ := k3 hd hstill hnl
-  exact ⟨b, get_finds c3 now hd ((get_rel c3 i3 now hd.key hd.method hd.query).keep hd a b)⟩
+/-- **Expired entries are never served**: in every reachable state, whatever the lookup, a hit has not expired. -/
+theorem rcache_hit_not_expired (maxBytes : Int) (ops : List COp) (now : Int) (k m q : Bytes) (e : CEntry)
+    (h : (((RCache.new maxBytes).run ops).get now k m q).2 = some e) : ¬ e.exp < now := by
+  obtain ⟨i, _⟩ := run_inv ops _ (new_inv maxBytes)
+  exact removeExpired_fresh _ i now e (get_hit _ now k m q e h).2.2.2
 
-/-- non-vacuity + the witness replayed on the real cache (harness case `hc-fixed` 1): an entry that expired 30 minutes
-    ago is still answered after another URL was stored -/
+/-- non-vacuity: three inserts out of order (one already expired), a lookup at time 3: ordered list, the expired entry
+    is gone from list AND index, the fresh one is a hit -/
 example :
-    let k1 : Bytes := [97]; let k2 : Bytes := [98]
-    ∃ c c2, (RCache.new 100).run [.insert k1 sGET [] 8 (-30000)] = some c ∧ c.insert k2 sGET [] 8 90000 = .ok c2 ∧
-      ((c2.get 3 k1 sGET []).2.map (·.exp)) = some (-30000) ∧ c2.list.map (·.id) = [1] := by
-  refine ⟨_, _, rfl, rfl, ?_, ?_⟩ <;> decide
+    let k1 : Bytes := [97]; let k2 : Bytes := [98]; let k3 : Bytes := [99]
+    let c := (RCache.new 100).run [.insert k1 sGET [] 8 90000, .insert k2 sGET [] 8 (-30000), .insert k3 sGET [] 8 30000]
+    c.list.map (·.id) = [1, 2, 0] ∧ ((c.get 3 k2 sGET []).2 = none) ∧ ((c.get 3 k2 sGET []).1.all.map (·.id) = [0, 2]) ∧
+    ((c.get 3 k1 sGET []).2.map (·.id) = some 0) ∧ c.size = 24 := by decide
 
-/-- a response body of exactly the cache's size makes `insert` spin for ever in its make-room loop (the expiry list is
-    empty, `pop` changes nothing): the call never returns, with the cache's mutex held -/
-theorem rcache_insert_hang_witness (n : Nat) (k m q : Bytes) (t : Int) : (RCache.new n).insert k m q n t = .err "hang" :=
-  hang_exact_fit n k m q t
+/-- a body of exactly the cache's size fits an empty cache; one byte more is refused (state unchanged but for the id) -/
+example : ((RCache.new 24).insert [97] sGET [] 24 90000).size = 24 ∧ ((RCache.new 24).insert [97] sGET [] 25 90000).all = [] ∧
+    (((RCache.new 24).insert [97] sGET [] 20 5).insert [98] sGET [] 10 7).list.map (·.id) = [1] := by decide
+
+/-- **The defect that was repaired (commit b991549), on the code as it was** (`NutsModel/C18/RCacheOld.lean`; both
+    witnesses were replayed on the real pre-fix cache by the harness and by the new Go test): (1) an entry displaced
+    from the expiry list by a later insert is still answered 30 minutes after its expiry; (2) inserting a body of
+    exactly the cache's size does not return (`hang`: the make-room loop pops an empty list for ever). -/
+theorem old_cache_defect_witness :
+    (∃ c c2, (Old.RCache.new 100).run [.insert [97] sGET [] 8 (-30000)] = some c ∧ c.insert [98] sGET [] 8 90000 = .ok c2 ∧
+      ((c2.get 3 [97] sGET []).2.map (·.exp)) = some (-30000) ∧ c2.list.map (·.id) = [1]) ∧
+    (Old.RCache.new 24).insert [97] sGET [] 24 90000 = .err "hang" := by
+  refine ⟨⟨_, _, rfl, rfl, ?_, ?_⟩, ?_⟩ <;> decide
 
 end Nuts.C18.Props
